@@ -866,9 +866,11 @@ func (p *CodeBuilder) IndexRef(nidx int, src ...ast.Node) *CodeBuilder {
 		Val: &target.IndexExpr{X: args[0].Val, Index: args[1].Val},
 		Src: getSrc(src),
 	}
-	typs, _ := p.getIdxValTypes(typ, true, elemRef.Src)
+	typs, ivKind := p.getIdxValTypes(typ, true, elemRef.Src)
 	elemRef.Type = &refType{typ: typs[1]}
-	// TODO: check index type
+	if ivKind != ivMapStringAny {
+		p.checkIndex(args[0], args[1], typs[0], ivKind == ivTwoValue)
+	}
 	p.stk.Ret(2, elemRef)
 	return p
 }
